@@ -405,7 +405,7 @@ def generate(extra_defs=(), extra_entries=(), write=True):
     table = {"nodes": [strip_node(n) for n in g.nodes], "entries": g.entry_ids}
     if write:
         os.makedirs(os.path.join(V, "catalogue"), exist_ok=True)
-        p = os.path.join(V, "harness", "dh", "src", "gen_cat.rs")
+        p = os.path.join(os.environ.get("VERIF_HARNESS_DIR", os.path.join(V, "harness")), "dh", "src", "gen_cat.rs")
         old = open(p).read() if os.path.exists(p) else None
         if old != rust:
             open(p, "w").write(rust)
